@@ -958,6 +958,36 @@ impl ThetaSketchBuilder {
     }
 }
 
+#[cfg(feature = "verif-hooks")]
+impl ThetaSketch {
+    /// Verification hook: offers an already computed 63-bit hash to the sketch, following
+    /// the path `update` takes after hashing (screen against theta, then `try_insert`).
+    pub fn verif_insert_hash(&mut self, hash: u64) {
+        let hash = self.table.verif_screen(hash);
+        if hash != 0 {
+            self.table.try_insert(hash);
+        }
+    }
+
+    /// Verification hook: log2 of the current hash table size.
+    pub fn verif_lg_cur_size(&self) -> u8 {
+        self.table.verif_lg_cur_size()
+    }
+
+    /// Verification hook: `(lg_cur_size, lg_nom_size, theta, num_entries, raw slot array,
+    /// is_empty)` of the internal hash table.
+    pub fn verif_table(&self) -> (u8, u8, u64, usize, Vec<u64>, bool) {
+        (
+            self.table.verif_lg_cur_size(),
+            self.table.lg_nom_size(),
+            self.table.theta(),
+            self.table.num_entries(),
+            self.table.verif_raw_entries().to_vec(),
+            self.table.is_empty(),
+        )
+    }
+}
+
 #[cfg(test)]
 mod tests {
     use super::*;
